@@ -124,7 +124,7 @@ def loop_form_r2(ctx, r2, rr, hop, ops_i):
         r2.site("one hop message per iteration, unconditionally")
 
 
-def run(ctx):
+def _run(ctx):
     P = ctx.P
     r1 = ctx.inst("C13.R1", "every hop offers the router's entire balance of the hop's offer asset (shared with C07.R4)", floor=4)
     r2 = ctx.inst("C13.R2", "only the last hop carries the recipient: `to` is Some exactly when a counter (0, +1 per hop, before the test) equals operations.len()", floor=5)
@@ -388,3 +388,12 @@ def run(ctx):
                 r5.site("Swap{%s} identical in both enums" % ", ".join(n for n, _ in hf))
         # serde naming attributes are the same macro (cw_serde) for both: both are plain enums with derived Serialize
     ctx.assumptions.append("'receives exactly the quoted amount' additionally needs C12 (quote == execution per hop) and that the router holds none of the route's assets; the equality of the two runtime computations is not itself decided")
+
+
+def run(ctx):
+    from .. import compose
+    from . import c11
+    _run(ctx)
+    r = ctx.inst("C13.R6", "the route's recipient is the caller's `to` or else the initiating user (direct: info.sender; hook: the cw20 envelope's sender) and the last hop pays that same account (shared with C11.R6, C11.R2)", floor=4)
+    compose.pull(ctx, r, c11, {"C11.R6"}, "C13.R6", key_rx=r":(sender|to|hook-decode|anchor|floor)")
+    compose.pull(ctx, r, c11, {"C11.R2"}, "C13.R6", key_rx=r":(receiver|hop-recipient|anchor|floor)")
